@@ -106,8 +106,10 @@ pub fn build_api(sp: &ServerPlan) -> ApiDescription<SimCtx> {
             work::register(&mut api);
             sink::register(&mut api, sp.rt_override);
         }
-        _ => {
+        ApiKind::SinkVersioned => {
             work::register(&mut api);
+            sink::register(&mut api, sp.rt_override);
+            sink::register_versioned(&mut api);
         }
     }
     api
@@ -115,7 +117,7 @@ pub fn build_api(sp: &ServerPlan) -> ApiDescription<SimCtx> {
 
 pub fn version_policy(sp: &ServerPlan) -> Option<dropshot::VersionPolicy> {
     match sp.api {
-        ApiKind::EchoVersioned | ApiKind::ErrVersioned => {
+        ApiKind::EchoVersioned | ApiKind::ErrVersioned | ApiKind::SinkVersioned => {
             Some(dropshot::VersionPolicy::Dynamic(Box::new(
                 dropshot::ClientSpecifiesVersionInHeader::new(
                     http::HeaderName::from_static("x-api-version"),
